@@ -51,7 +51,7 @@ def pair(name, keys, reqs, o, n, nfiles=1, start=None, kinds=None, qmax=2, maxat
     xcfg = (n.get("defcfg", "") + " linux-x11-repeat-delay-rate 400,50").strip()
     texts = {
         "O": both(o), "N": both(n),
-        # parses, but the step after the assignments (xset) cannot be run
+        # parses, but a step of the reload (xset, run before the first assignment since 20ca339) cannot be run
         "X": kbd(keys, n["layers"], reqs, n.get("extra", ""), xcfg),
         "S": both(n).rstrip()[:-1] + "\n",                         # unbalanced parenthesis
         "S2": both(n) + ')\n',                                     # stray closing parenthesis
@@ -254,7 +254,7 @@ CFG_OF_KIND = {"O": "O", "N": "N", "X": "N"}
 
 def mon_params(p, idxsem, scap, files=None):
     codes = {q["key"]: cfgdesc.code(q["key"]) for q in p["reqs"]}
-    return {"files": list(files or p["start"]), "valid": ["O", "N", "X"], "mayfail": ["X"], "first": p["first"],
+    return {"files": list(files or p["start"]), "valid": ["O", "N"], "first": p["first"],
             "req": [{"c": codes[q["key"]], "k": q["k"], "n": q["n"]} for q in p["reqs"]],
             "idxsem": idxsem, "scap": scap, "sec": 1000, "bound": 1, "settle": p["settle"]}
 
@@ -666,7 +666,7 @@ def run(tier, seed):
         "and random histories are run as lanes A (requests), B (no request), C (fresh instance of the new file) on the real "
         "code and TLC validates the recorded lane triples against P_C15.",
         assumptions=["deterministic loop stepper (1 ms per iteration) through the kanata_verif hooks",
-                     "xset is not available (fault kind X: the post-parse step of do_live_reload fails)",
+                     "xset is not available (fault kind X: the file parses, the repeat-rate step of do_live_reload fails)",
                      "histories do not record dynamic macros, save clipboard slots or use lrld-file",
                      "MAPPED_KEYS / device-related options are not observable through the stepper"])
 
